@@ -67,6 +67,12 @@ def gen_namespace(rng, root: pathlib.Path, name: str, ntypes: int):
         d = root / sub if sub else root
         d.mkdir(parents=True, exist_ok=True)
         short = f"T{i}" if rng.random() < 0.7 else rng.choice(["Node", "Info", "Cfg", "Msg"]) + str(i)
+        if made and rng.random() < 0.25:
+            # a twin of an earlier name that differs only by zero padding of its digit run (orderings must stay total)
+            prev = rng.choice(made)[0].rsplit(".", 1)[-1]
+            m = re.match(r"^([A-Za-z_]+)(\d+)$", prev)
+            if m and not (d / f"{m.group(1)}0{m.group(2)}.1.0.dsdl").exists():
+                short = f"{m.group(1)}0{m.group(2)}"
         full = ".".join([name] + ([x for x in sub.split("/")] if sub else []) + [short])
         kind = rng.choice(["struct", "struct", "union", "service", "delimited", "empty"])
         lines, bits = [], 0
@@ -270,15 +276,22 @@ def run(ctx: common.Ctx):
     jobs, meta = [], {}
     T1, T2 = 981173106.0, 2208988800.0       # 2001-02-03, 2040-01-01
     snaps = {iname: pr.snapshot_input(root, lookups) for iname, root, lookups in inputs}
+    links = {}
     for ii, (iname, root, lookups) in enumerate(inputs):
         # two absolute locations, same relative layout
         locA = scratch / "locA" / f"in{ii}"
         locB = scratch / "elsewhere" / "deeper" / "x y" / f"in{ii}"
-        for loc in (locA, locB):
+        # a location whose ancestors repeat the root namespace name (and a lookup name), with a space in it
+        locC = scratch / "locC" / root.name / "dsdl src" / root.name / f"in{ii}"
+        for loc in (locA, locB, locC):
             loc.mkdir(parents=True)
             pr.copy_tree(root, loc / root.name)
             for lk in lookups:
                 pr.copy_tree(lk, loc / lk.name)
+        # the same inputs reached through a symbolic link (another spelling of the location, same files)
+        (scratch / "links").mkdir(exist_ok=True)
+        links[ii] = scratch / "links" / f"to_in{ii}"
+        links[ii].symlink_to(locA, target_is_directory=True)
         for lang in LANGS:
             for oname, extra in OPTSETS[lang][:nopt]:
                 cfg = f"{ii}|{lang}|{oname}"
@@ -302,6 +315,8 @@ def run(ctx: common.Ctx):
                 add("hashR", "hashseed", locA, scratch / "cwd1", rnd_seed, T1)
                 add("cwd", "cwd", locA, scratch / "cwd2" / "nested" / "dir", "0", T1)
                 add("location", "location", locB, scratch / "cwd1", "0", T1)
+                add("location-rootname-ancestor", "location", locC, scratch / "cwd1", "0", T1)
+                add("location-symlink", "location", links[ii], scratch / "cwd1", "0", T1)
                 if not ctx.quick:
                     add("all", "all", locB, scratch / "cwd2" / "nested" / "dir", rnd_seed, T2, 1.0)
     ctx.extra["paired_jobs"] = len(jobs)
@@ -382,8 +397,20 @@ def replay(ctx, path):
     for side in ("base", "other"):
         cfg = rp[side]
         same_loc = rp["base"]["location"] == rp["other"]["location"]
-        loc = scratch / ("locA" if (side == "base" or same_loc) else "elsewhere/deeper/x y")
+        rootname = rp["dsdl"]["root"]
+        var = rp.get("factor_varied", "")
+        if side == "base" or same_loc or var == "location-symlink":
+            loc = scratch / "locA"
+        elif var == "location-rootname-ancestor":
+            loc = scratch / "locC" / rootname / "dsdl src" / rootname
+        else:
+            loc = scratch / "elsewhere/deeper/x y"
         root, lks = pr.restore_input(rp["dsdl"], loc / "in")
+        if side == "other" and var == "location-symlink":
+            (scratch / "links").mkdir(exist_ok=True)
+            (scratch / "links" / "to_in").symlink_to(loc / "in", target_is_directory=True)
+            root = scratch / "links" / "to_in" / root.name
+            lks = [scratch / "links" / "to_in" / l.name for l in lks]
         same_cwd = rp["base"]["cwd"] == rp["other"]["cwd"]
         cwd = scratch / ("cwd1" if (side == "base" or same_cwd) else "cwd2/nested/dir")
         cwd.mkdir(parents=True, exist_ok=True)
